@@ -3,7 +3,7 @@
    Population: 1,2 groups (may hold `member`, carry description x1), 3 a dependent (client certificate,
    single `refers`, initially -> 1), 4 a dynamic group whose filter matches 1 and 2 by attribute.
    Edits: add/remove a member, re-point refers, delete 1..2 entries, revive, purge the recycle bin,
-   re-evaluate the dynamic group (any modify of it).  Histories are bounded by MaxLen; a transition
+   re-evaluate the dynamic group (any modify of it), replace a member set (>= 2 new members at once).  Histories are bounded by MaxLen; a transition
    into a state with a dangling reference is printed as <<"CEX", n, k1,a1,b1, ...>> and not explored
    further; every Sample-th full-length history is printed as <<"BEH", ...>> for replay on the real
    server (direction A). *)
@@ -32,6 +32,8 @@ Next == /\ NoDangling(s) /\ Len(h) < 3 * MaxLen
            \/ \E x \in Ids4 : s.lv[x] = "recycled" /\ Step(5, x, 0, Revive(s, x).st)
            \/ (\E x \in Ids4 : s.lv[x] = "recycled") /\ Step(6, 0, 0, Purge(s, Ids4))
            \/ s.lv[4] = "live" /\ Step(7, 4, 0, DynReeval(s, 4, {1, 2}))
+           \/ \E g \in {1, 2}, M \in SUBSET Ids4 : Cardinality(M \ s.ref[g]["member"]) >= 2
+                   /\ Step(8, g, SetCode(M), SetRef(s, g, "member", M).st)
 Spec == Init /\ [][Next]_<<s, h>>
 
 Pad(q) == q \o [i \in 1..(24 - Len(q)) |-> 0]
